@@ -47,7 +47,7 @@ def check(case, M):
     def fail(kind, what, detail):
         f = {"kind": kind, "what": what, "detail": detail}
         if fid:
-            f["finding"] = fid
+            f["finding"] = fid.get("other") if isinstance(fid, dict) else fid
         failures.append(f)
     common_failures(case, r, failures)
     g, costs = r["g"], r["costs"]
